@@ -140,7 +140,7 @@ def gen_history(rng, big=False):
 
 
 def gen(rng, tier):
-    total = 700 if tier == "quick" else 12000
+    total = 500 if tier == "quick" else 12000
     yield tie_witness()
     # variations of the witness: the boundary tie with other M, several consumers sharing the slices
     for m in (1, 2, 3):
